@@ -146,9 +146,15 @@ def run(ctx):
         "modelled, not verified: the per-increment Newton solve (its convergence verdict is the oracle `fails`)",
     ]
     ctx.assumptions += ["time/pressure/temperature interpolation inside an attempt is checked by the Python oracle, not by a theorem"]
+    from harness import translators as _tr
+    ctx.trusted += ["translator harness/translators/adaptiveloop.py (the loop's branch arithmetic emitted after exact matches of the source lines)"]
+    _tr.import_all()
+    ctx.gen("AdaptiveLoop", _tr.REGISTRY["AdaptiveLoop"])
     proved = ctx.prove("C10", expect_theorems=["C10_success_is_converged_contiguous", "C10_raise_iff_exhausted"])
+    ctx.prove("C10_loop")
     if ctx.tier == "thorough":
         ctx.coqchk("C10")
+        ctx.coqchk("C10_loop")
 
     res = run_impl("c10_adaptive", {"jobs": jobs_for(ctx, ctx.tier == "thorough")}, timeout=1200)
     cases = res["cases"]
